@@ -43,26 +43,29 @@ class G:
     def prim(self):
         r = self.r
         c = r.choice(["bool", "i32", "i64", "f32", "f64", "String", "u16", "u32", "u64", "i8", "i16", "usize",
-                      "bytes", "fixed", "logical"])
+                      "bytes", "bytes", "fixed", "logical", "logical", "logical", "i64", "i32", "String"])
+        AVRO = {"bool": "boolean", "i32": "int", "i64": "long", "f32": "float", "f64": "double", "String": "string",
+                "u16": "int", "u32": "long", "u64": "long", "i8": "int", "i16": "int", "usize": "long"}
         if c == "bytes":
-            return dict(ty="Vec<u8>", attrs=['#[serde(with = "serde_bytes")]'], union=False)
+            return dict(ty="Vec<u8>", attrs=['#[serde(with = "serde_bytes")]'], union=False, avro="bytes")
         if c == "fixed":
             n = r.choice([1, 2, 4, 12, 16, 32])
-            return dict(ty=f"[u8; {n}]", attrs=['#[serde(with = "serde_bytes")]'], union=False)
+            return dict(ty=f"[u8; {n}]", attrs=['#[serde(with = "serde_bytes")]'], union=False, avro=f"fixed({n})")
         if c == "logical":
             k = r.choice(["Uuid", "Date", "TimeMillis", "TimeMicros", "TimestampMillis", "TimestampMicros", "decimal", "custom"])
             if k == "Uuid":
-                return dict(ty="String", attrs=['#[avro_schema(logical_type = "Uuid")]'], union=False)
+                return dict(ty="String", attrs=['#[avro_schema(logical_type = "Uuid")]'], union=False, avro="string/uuid")
+            LN = {"Date": "date", "TimeMillis": "time-millis", "TimeMicros": "time-micros", "TimestampMillis": "timestamp-millis", "TimestampMicros": "timestamp-micros"}
             if k in ("Date", "TimeMillis"):
-                return dict(ty="i32", attrs=[f'#[avro_schema(logical_type = "{k}")]'], union=False)
+                return dict(ty="i32", attrs=[f'#[avro_schema(logical_type = "{k}")]'], union=False, avro=f"int/{LN[k]}")
             if k in ("TimeMicros", "TimestampMillis", "TimestampMicros"):
-                return dict(ty="i64", attrs=[f'#[avro_schema(logical_type = "{k}")]'], union=False)
+                return dict(ty="i64", attrs=[f'#[avro_schema(logical_type = "{k}")]'], union=False, avro=f"long/{LN[k]}")
             if k == "decimal":
                 scale = r.choice([0, 1, 2, 5])
                 return dict(ty="rust_decimal::Decimal", attrs=[f'#[avro_schema(scale = {scale}, precision = 28)]'], union=False,
-                            genexpr=f"crate::gen_decimal(r, {scale})")
-            return dict(ty="String", attrs=['#[avro_schema(logical_type = "my-custom-type")]'], union=False)
-        return dict(ty=c, attrs=[], union=False)
+                            genexpr=f"crate::gen_decimal(r, {scale})", avro=f"bytes/decimal({scale},28)")
+            return dict(ty="String", attrs=['#[avro_schema(logical_type = "my-custom-type")]'], union=False, avro="string/my-custom-type")
+        return dict(ty=c, attrs=[], union=False, avro=AVRO[c])
 
     def named_ref(self, allow_union=True):
         cands = [t for t in self.types if not t.generic and (allow_union or not t.is_union)]
@@ -152,8 +155,11 @@ class G:
         nf = r.randint(0, 6)
         fnames = r.sample(["a", "b", "c", "id", "next", "value", "items", "m", "r#type", "r#match", "name", "kind", "x", "y", "data", "ts"], nf)
         lines, gens = [], []
+        t.expected_fields = {}
         for fn in fnames:
             ft = self.ftype(0, True, self_name=t.name)
+            if ft.get("avro"):
+                t.expected_fields[fn.replace("r#", "")] = ft["avro"]
             for a in ft["attrs"]:
                 lines.append(f"\t{a}")
             lines.append(f"\tpub {fn}: {ft['ty']},")
@@ -321,6 +327,7 @@ class G:
         out.append("}")
         # all named types must have pairwise distinct fullnames
         self.meta["named_fullnames"] = {t.name: t.fullname for t in self.types if t.kind in ("struct", "unit_enum") and t.fullname}
+        self.meta["expected_fields"] = {t.fullname: t.expected_fields for t in self.types if t.kind == "struct" and getattr(t, "expected_fields", None)}
         return "\n".join(out) + "\n"
 
 
